@@ -484,12 +484,17 @@ Section Exec.
             | None => ret w rEINVAL end
         end
     (* ---------------- sources ---------------- *)
-    | CSrcReg m k key p oneshot autoclose up =>
+    | CSrcReg m k key p0 oneshot autoclose up =>
+        (* the priority field of a script also carries the M_SRC_DUP request (8 + priority); it matters for descriptors only *)
+        let dup := Nat.leb 8 p0 in
+        let p := if dup then p0 - 8 else p0 in
         let bad := match k with
                    | KFd => negb (Nat.eqb p 0 || Nat.eqb p 3)
                    | KPs | KSub => true
                    | _ => N.eqb key 0 end in
-        if bad then ret w rEINVAL else retp (register_mod_src w m k key p oneshot autoclose INone up)
+        if bad then ret w rEINVAL else
+        if dup && skind_eqb k KFd then retp (register_dup_fd w m key p oneshot up)
+        else retp (register_mod_src w m k key p oneshot autoclose INone up)
     | CSrcDereg m k key =>
         let bad := match k with KFd => false | KPs | KSub => true | KTask => false | _ => N.eqb key 0 end in
         if bad then ret w rEINVAL else
